@@ -301,7 +301,9 @@ def build_model(meta):
         else:
             D = mk_geom(["cont1d", n])
         coq = "(mat_model %s %s %s %s)" % (cnat(A.shape[1]), enc_mat(A), D.coq, R.coq)
-        return M(mod, coq, D, R, "testproblem", False, A.shape[1], A.shape[0], {"A": A, "tp": tp})
+        # integer PSFs through convolve1d / toeplitz and identity geometries: ring operations on small integers only -> compared exactly
+        ex = bool(D.exact and D.ident and np.all(np.isfinite(A)) and np.all(A == np.round(A)) and np.max(np.abs(A)) < 2 ** 20)
+        return M(mod, coq, D, R, "testproblem", ex, A.shape[1], A.shape[0], {"A": A, "tp": tp})
     D, R = mk_geom(ms["D"]), mk_geom(ms["R"])
     A = np.array(ms["A"], dtype=float) * 2.0 ** ms.get("scale", 0)      # dyadic magnitude sweep: still exact
     backing = ms["backing"]
@@ -1092,7 +1094,8 @@ def classify(meta, detail):
 
 WITNESSES = {
     "LinearModel.get_matrix|nonlinear-projection:StepExpansion":
-        {"op": "gm", "model": {"backing": "function", "A": [[1, 0], [0, 1]], "D": ["int", 2], "R": ["step", 2, 1, "max"]}, "x": [1, 1], "y": [1]},
+        {"op": "gm", "model": {"backing": "function", "A": [[1, 0, 0, 0], [0, 1, 0, 0], [0, 0, 1, 0], [0, 0, 0, 1]], "D": ["int", 4], "R": ["step", 4, 2, "max"]},
+         "x": [1, 1, 0, 0], "y": [1, 1]},
     "LinearModel.adjoint|nonorthogonal-geometry:StepExpansion":
         {"op": "fa", "model": {"backing": "dense", "A": [[1, 2, 0, 1, 3, 1], [0, 1, 1, 2, 0, 1], [2, 0, 1, 0, 1, 1]], "D": ["step", 6, 3], "R": ["int", 3]},
          "x": [1, 2, 3], "y": [1, -1, 2]},
